@@ -13,13 +13,26 @@ THEOREMS = ["C12_write_data_success_means_all_bytes", "C12_write_data_only_prefi
             "C12_scan_success_flags", "C12_data_success_is_real", "C12_scan_flags_sound_without_short_reads",
             "C12_copy_any_schedule", "C12_copy_total", "C12_scan_flags_refuted_by_short_read",
             # the scan with the proposed re-seek fix (Io/ScanReseek.v)
-            "C12_fixed_scan_faultfree", "C12_fixed_scan_success_flags", "C12_fixed_scan_flags_sound_every_schedule", "C12_reader_faults"]
+            "C12_fixed_scan_faultfree", "C12_fixed_scan_success_flags", "C12_fixed_scan_flags_sound_every_schedule", "C12_reader_faults",
+            # the download callbacks under write/lseek fault schedules (Io/DlFaults.v)
+            "C12_dl_faultfree", "C12_dl_no_error_is_faultfree", "C12_dl_plain_success_is_faultfree", "C12_dl_invariants_every_schedule",
+            "C12_dl_invariants_init", "C12_dl_valid_chunks_kept", "C12_dl_plain_reports", "C12_dl_error_state_refuses",
+            "C12_dl_multipart_reports", "C12_dl_mismatch_zeroed"]
 ASSUMPTIONS = [
     "POSIX read/write/lseek transfer a prefix or fail; a short read of a regular file returns at least one byte before EOF",
     "model Io/Faults.v covers io.c (read_data, write_data, chunks_from_temp) and the call sites of the writer; Io/ScanFaults.v and Io/CopyFaults.v "
     "cover validate_checksums / zck_validate_data_checksum / zck_copy_chunks / write_and_verify_chunk / zero_chunk with read, write and lseek "
     "schedules and the contexts' error states (tied to the library by the V and C scenarios: return value, flags, target file under every single "
-    "fault); reader and download call sites are covered by the exhaustive single-fault runs (oracle: success implies the fault-free result), not by a theorem",
+    "fault); the reader is covered by C12_reader_faults",
+    "download callbacks: Io/DlFaults.v re-states dl_write / dl_write_range / set_chunk_valid+zero_chunk / the search loop's seek and the multipart "
+    "layer over a schedule of write(2) and lseek(2) outcomes on the target (write_data's one retry as in Io/Faults.v; validation hashes the bytes "
+    "handed over, nothing is read back); theorems hold for every schedule, header line, fragment list, hash and regex oracle. Tie: the extracted "
+    "model (C05 driver, opts fault=<op>.<k>.<kind>.<n>) against harness zh_c12dl = zh_c05 built with the read/write/lseek wrappers, on 480 (thorough "
+    "2664) (case, single fault) pairs - per-callback results, file, flags - plus the existing exhaustive single-fault D scenario on real zchunk files. "
+    "Hypotheses of the invariant theorem: chunk extents pairwise disjoint (disjoint_tab) and the state invariant dl_wfF/verified, which hold for a fresh "
+    "zckDL (C12_dl_invariants_init); 'success = fault-free' is stated for 'no error recorded at the end' (in single-range mode implied by every "
+    "callback returning the full count; in multipart mode a part announced with length 0 lets one callback return success although the error state "
+    "was set - C12_dl_multipart_reports - and the next callback then fails); continuing after zck_clear_error is outside the model",
     "C12_scan_flags_refuted_by_short_read is a counter-example, not a guarantee: under a read that returns fewer bytes than the file has, "
     "validate_checksums may flag a later chunk valid from shifted bytes (its return value is still not 1)",
     "close(2) results and dprintf logging are not modelled",
@@ -57,7 +70,9 @@ def run(res, tier, only_case=None):
     rng = vlib.Rng(vlib.seed())
     res.rule = ("for each scenario (writer none/zstd, reader, validate, copy, download) the fault-free call counts are measured, then every "
                 "k-th read / write / lseek fails with EIO, ENOSPC, EINTR or returns a short count of 1 or 7 bytes (quick: sampled k when a scenario has "
-                "more than 14 calls of one kind), plus sampled double faults; zck and unzck binaries with the same wrappers. non-trivial = distinct "
+                "more than 14 calls of one kind), plus sampled double faults; zck and unzck binaries with the same wrappers; download callbacks: "
+                "the model Io/DlFaults.v against the wrapped C05 harness on sampled (response, fragmentation, k-th write/lseek fault) pairs incl. checksum "
+                "mismatches whose zero fill is hit. non-trivial = distinct "
                 "(scenario, fault) whose fault was actually reached (fired=1)")
     wd = vlib.scratch("C12")
     env = {"ZH_TMP": wd}
@@ -266,7 +281,7 @@ def download_model_part(res, tier, rng, wd):
     model = vlib.ensure_model("C05")
     base = []
     tables = [[(9, 0, 1201), (14, 0, 1202), (6, 0, 1203)],
-              [(7, 0, 1211), (9, 1, 1212), (40000 if tier == "thorough" else 6, 0, 1213), (11, 0, 1214)],
+              [(7, 0, 1211), (9, 1, 1212), (6, 0, 1213), (11, 0, 1214)],
               [(5, 1, 1221), (12, 0, 1222), (8, 0, 1223), (4, 1, 1224), (10, 0, 1225)]]
     for ti, chunks in enumerate(tables):
         ridx, _ = c05.auto_ridx(chunks, 40)
@@ -278,6 +293,14 @@ def download_model_part(res, tier, rng, wd):
                 for parts in ("w", "k5"):
                     base.append((("dlf:%d:%s:%s:%s" % (ti, mode, "ok" if corrupt is None else "bad%d" % corrupt[0], parts)),
                                  chunks, ridx, hdrs, body, parts))
+    if tier == "thorough":
+        # a chunk longer than zero_chunk's 32 KiB block (two zero blocks on a checksum mismatch), large fragments only
+        chunks = [(7, 0, 1231), (40000, 0, 1232), (11, 0, 1233)]
+        ridx, _ = c05.auto_ridx(chunks, 40)
+        for corrupt in (None, (1, 5)):
+            hdrs, body = c05.response(chunks, ridx, 40, "plain", corrupt=corrupt)
+            for parts in ("w", "k16384"):
+                base.append(("dlf:big:%s:%s" % ("ok" if corrupt is None else "bad1", parts), chunks, ridx, hdrs, body, parts))
     faults = [None] + ["write.%d.%s" % (k, kk) for k in range(1, 9 if tier == "quick" else 14)
                        for kk in ("eio.1", "short.1", "short.0", "eintr.1", "enospc.1")] + \
              ["lseek.%d.eio.1" % k for k in range(1, 6 if tier == "quick" else 9)]
